@@ -9,6 +9,14 @@ K = 'bounded model checking of the real code with Kani/CBMC (SAT)'
 M = 'bounded symbolic execution of the real MIR with an SMT solver (mirsym + z3)'
 
 CHECKS = {
+    'C20': dict(engine='M+K', cat='other',
+                text='bounded symbolic execution of the real render helpers: task_message over valid UTF-8 text of every character-length pattern '
+                     'up to the byte bound with symbolic seconds (0..10^6) and width (10..300), truncate with a symbolic limit, progress_bar with '
+                     'six symbolic counters up to 2^40 in integer mode (fresh quotient/remainder per division), FancyState::task_output on long lines; '
+                     'no panic, exact bar width, cuts on character boundaries; Kani on truncate',
+                note='trusted: std models (String::truncate / str slicing check character boundaries as std does), integer-mode arithmetic with explicit '
+                     'overflow obligations, Kani/CBMC; the display thread and lock poisoning are outside a sequential engine',
+                tech=M + ' (integer theory for the division kernel); ' + K, ref='DESIGN.md section 4, C20'),
     'C10': dict(engine='M', cat='other',
                 text='bounded symbolic execution of the real loader on structured manifests: an abstract build statement (paths per role, escapes) and '
                      'an abstract command value are rendered under symbolic spelling choices (separators, continuations, $v vs ${v}, escapes) with '
